@@ -159,7 +159,7 @@ func fixRepresentable(bin []byte) (xmlOK, jsonOK bool) {
 }
 
 type fixStats struct {
-	accepted, noncanon, cross int
+	generated, accepted, noncanon, cross int
 }
 
 // fixOracle: v was decoded by codec `e` from an accepted input. Returns (re-encoding, number of cross hops made).
@@ -330,8 +330,9 @@ func fixCase(ctx *Ctx, s *schema.Schema, tg planTarget, e int, class string, dep
 		outcome = "panic" // C02's business; not judged here
 	}
 	ctx.Res.Count("fix." + key + "." + outcome)
+	st := fixCount.get(key)
+	st.generated++
 	if v != nil {
-		st := fixCount.get(key)
 		st.accepted++
 		e1, hops := fixOracle(ctx, line, tg, goType, e, v)
 		st.cross += hops
@@ -744,19 +745,24 @@ func mutateM(r *rng.R, root *mnode, class string) int {
 		return l.depth
 	case "pad":
 		var lv []mloc
-		root.leaves(0, func(n *mnode) bool { return len(n.val)%8 != 0 || n.typ == 6 }, &lv)
+		root.leaves(0, func(n *mnode) bool { return len(n.val)%8 != 0 }, &lv)
 		if len(lv) == 0 {
 			return -1
 		}
 		l := rng.Pick(r, lv)
-		if l.n.typ == 6 && len(l.n.val) == 8 {
-			copy(l.n.val[:7], r.Bytes(7)) // only the low byte of a Boolean is looked at
-			l.n.val[r.Intn(7)] |= 2
-			return l.depth
-		}
 		p := r.Bytes((8 - len(l.n.val)%8) % 8)
 		p[r.Intn(len(p))] |= 1
 		l.n.pad = p
+		return l.depth
+	case "boolgarb":
+		var lv []mloc
+		root.leaves(0, func(n *mnode) bool { return n.typ == 6 && len(n.val) == 8 }, &lv)
+		if len(lv) == 0 {
+			return -1
+		}
+		l := rng.Pick(r, lv)
+		copy(l.n.val[:7], r.Bytes(7)) // only the low byte of a Boolean is looked at
+		l.n.val[r.Intn(7)] |= 2
 		return l.depth
 	case "ver-down", "ver-up":
 		var lv []mloc
@@ -779,7 +785,7 @@ func mutateM(r *rng.R, root *mnode, class string) int {
 	return -1
 }
 
-var fixBinClasses = []string{"swap", "move", "dup", "dup-alt", "unk-front", "unk-mid", "unk-end", "del", "zero", "text", "bigpad", "pad", "ver-down", "ver-up"}
+var fixBinClasses = []string{"swap", "move", "dup", "dup-alt", "unk-front", "unk-mid", "unk-end", "del", "zero", "text", "bigpad", "pad", "boolgarb", "ver-down", "ver-up"}
 
 // fixBinMutants: `per` random single mutations of each class, compositions, and — for one structure of the
 // message (the root for standalone types) — EVERY single structural mutation at every child position.
@@ -1052,9 +1058,14 @@ func fixSeed(ctx *Ctx, s *schema.Schema, tg planTarget, r *rng.R, x any, per int
 // the input and its re-encoding differs from it) — or, for the classes whose accepted mutants are ordinary
 // messages again (marked "acc:"), of accepted mutants — in the quick tier: about a fifth of what the unchanged
 // library yields. The thorough tier (ten times the seeds) asks for eight times as many.
+//
+// A class the library REJECTS (fewer than 2 % of at least floor-many generated mutants accepted) does not fail
+// its floor: a decoder that is strict about a class leaves nothing to show for it, which is not a C18 matter;
+// it is recorded as fix.cov.<class>.rejected-by-library. The number of GENERATED mutants per class always has
+// to reach the floor (a generator that stops producing a class is a broken check).
 var fixFloorTable = map[string]int{
 	"ttlv.swap": 60, "ttlv.move": 80, "ttlv.dup": 200, "ttlv.dup-alt": 120, "ttlv.unk-front": 40, "ttlv.unk-mid": 80, "ttlv.unk-end": 150,
-	"acc:ttlv.del": 120, "ttlv.zero": 50, "acc:ttlv.text": 120, "ttlv.bigpad": 20, "ttlv.pad": 120, "ttlv.ver-down": 40, "acc:ttlv.ver-up": 100, "ttlv.combo": 40,
+	"acc:ttlv.del": 120, "ttlv.zero": 50, "acc:ttlv.text": 120, "ttlv.bigpad": 20, "ttlv.pad": 100, "ttlv.boolgarb": 20, "ttlv.ver-down": 40, "acc:ttlv.ver-up": 100, "ttlv.combo": 40,
 	"ttlv.unk@depth0": 80, "ttlv.unk@depth1": 25, "ttlv.unk@depth2": 60, "ttlv.unk@depth3": 60,
 	"xml.swap": 35, "xml.move": 30, "xml.dup": 80, "xml.dup-alt": 70, "acc:xml.text": 120, "xml.date-edge": 20, "xml.unk-front": 40, "xml.unk-mid": 50, "xml.unk-end": 120,
 	"acc:xml.del": 60, "xml.zero": 35, "xml.lex": 120, "xml.lex-big": 12, "xml.lex-date": 70, "xml.lex-mask": 5, "xml.attr": 120, "xml.ver-down": 40, "acc:xml.ver-up": 100, "xml.combo": 40,
@@ -1062,7 +1073,6 @@ var fixFloorTable = map[string]int{
 	"json.swap": 35, "json.move": 30, "json.dup": 80, "json.dup-alt": 70, "acc:json.text": 120, "json.date-edge": 25, "json.unk-front": 40, "json.unk-mid": 50, "json.unk-end": 120,
 	"acc:json.del": 60, "json.zero": 35, "json.lex": 120, "json.lex-big": 12, "json.lex-date": 70, "json.lex-mask": 5, "json.memb": 120, "json.ver-down": 40, "acc:json.ver-up": 100, "json.combo": 40,
 	"json.unk@depth0": 30, "json.unk@depth1": 25, "json.unk@depth2": 50, "json.unk@depth3": 80,
-	"acc:generic.pad": 100, "acc:generic.unk-end": 100, "acc:generic.bigpad": 20,
 }
 
 func fixFloors(ctx *Ctx) {
@@ -1094,6 +1104,15 @@ func fixFloors(ctx *Ctx) {
 		fk = append(fk, k)
 	}
 	sort.Strings(fk)
+	// the unk@depth sub-counts follow their classes
+	unkRejected := true
+	for _, enc := range []string{"ttlv", "xml", "json"} {
+		for _, c := range []string{"unk-front", "unk-mid", "unk-end"} {
+			if st := fixCount[enc+"."+c]; st != nil && st.accepted*50 >= st.generated {
+				unkRejected = false
+			}
+		}
+	}
 	for _, k := range fk {
 		key, acc := strings.CutPrefix(k, "acc:")
 		got, what := 0, "accepted non-canonical"
@@ -1103,8 +1122,24 @@ func fixFloors(ctx *Ctx) {
 				got, what = st.accepted, "accepted"
 			}
 		}
-		if got < fixFloorTable[k]*mult {
-			ctx.Res.Fail(fmt.Sprintf("fix: coverage floor not met for %s: %d %s mutants, floor %d (the class is not exercised: nothing is shown about it)", key, got, what, fixFloorTable[k]*mult))
+		floor := fixFloorTable[k] * mult
+		st := fixCount[key]
+		switch {
+		case strings.Contains(key, "@depth"):
+			// a sub-count of the unk-* classes (no generated count of its own)
+			if got < floor && !unkRejected {
+				ctx.Res.Fail(fmt.Sprintf("fix: coverage floor not met for %s: %d %s mutants, floor %d", key, got, what, floor))
+			}
+		case st == nil || st.generated < floor:
+			gen := 0
+			if st != nil {
+				gen = st.generated
+			}
+			ctx.Res.Fail(fmt.Sprintf("fix: coverage floor not met for %s: only %d mutants generated, floor %d (the generator no longer produces the class)", key, gen, floor))
+		case st.accepted*50 < st.generated:
+			ctx.Res.Distribution["fix.cov."+key+".rejected-by-library"] = st.generated
+		case got < floor:
+			ctx.Res.Fail(fmt.Sprintf("fix: coverage floor not met for %s: %d %s of %d generated mutants, floor %d (the class is exercised too little to show anything about it)", key, got, what, st.generated, floor))
 		}
 	}
 	for _, enc := range []string{"ttlv", "xml", "json", "generic"} {
